@@ -8,11 +8,11 @@ CONSTANTS
  DedupMode = "peer+id"
  AtomicDedup = TRUE
  AllowRelay = TRUE
- MCCfgs <- CfgAll
+ MCCfgs <- Cfg3
  Bodies = {x, y}
- MaxFSig = 99
- MaxB = 1
- Conc = 0
+ MaxFSig = 4
+ MaxB = 0
+ Conc = 2
  Lists = "best"
 SYMMETRY Sym
 INVARIANTS Safety
